@@ -480,8 +480,9 @@ def native_sweep(repo, tier):
 
 
 from contracts import c04_flow as FLOW  # noqa: E402
+from contracts import c04_meta as META  # noqa: E402
 
-EXTRA = [file_metadata_defaults, FLOW.image_constructor_sites, FLOW.field_store_sites, FLOW.chr_sites, FLOW.decode_sites, FLOW.literal_sites, native_sweep]
+EXTRA = [file_metadata_defaults, FLOW.image_constructor_sites, FLOW.field_store_sites, FLOW.chr_sites, FLOW.decode_sites, FLOW.literal_sites, META.metadata_readers, native_sweep]
 REPLAY_UNKNOWN = True
 TRUSTED = []
 ASSUMED_MODELS = []
